@@ -36,6 +36,7 @@ type dirBox struct {
 	h              *mailbox.DirHandler
 	calls          []sess.Call
 	failAt, calls_ int
+	failReal       bool // the fault is a genuine file-system failure inside the real handler, not an error of the wrapper
 	Misuse         string
 }
 
@@ -56,8 +57,14 @@ func newDirBox() *dirBox {
 	return &dirBox{root: root, h: h}
 }
 
-func (b *dirBox) Close()                   { os.RemoveAll(b.root) }
-func (b *dirBox) FailAt(j int)             { b.failAt = j }
+func (b *dirBox) Close() { os.RemoveAll(b.root) }
+func (b *dirBox) FailAt(j int) {
+	if j < 0 { // negative: the -j-th ProcessInbound meets a genuine file-system failure
+		b.failAt, b.failReal = -j, true
+		return
+	}
+	b.failAt = j
+}
 func (b *dirBox) Handler() fbb.MBoxHandler { return b }
 func (b *dirBox) CallsOf(op string) []sess.Call {
 	var out []sess.Call
@@ -103,12 +110,28 @@ func (b *dirBox) ProcessInbound(msgs ...*fbb.Message) error {
 		b.calls_++
 		data, _ := m.Bytes()
 		c := sess.Call{Op: "ProcessInbound", MID: m.MID(), Bytes: data}
-		if b.failAt > 0 && b.calls_ == b.failAt {
+		if b.failAt > 0 && b.calls_ == b.failAt && !b.failReal {
 			c.Err = "storage error (injected)"
 			b.calls = append(b.calls, c)
 			return fmt.Errorf("storage error (injected)")
 		}
-		if err := b.h.ProcessInbound(m); err != nil {
+		broken := b.failAt > 0 && b.calls_ == b.failAt
+		in, bak := filepath.Join(b.root, "in"), filepath.Join(b.root, "in.broken")
+		if broken {
+			// the inbox directory is replaced by a regular file for the duration of this call: whatever
+			// the handler tries to write there fails in the file system
+			if os.Rename(in, bak) != nil || os.WriteFile(in, nil, 0o644) != nil {
+				core.Infra("cannot break the inbox directory")
+			}
+		}
+		err := b.h.ProcessInbound(m)
+		if broken {
+			os.Remove(in)
+			if os.Rename(bak, in) != nil {
+				core.Infra("cannot restore the inbox directory")
+			}
+		}
+		if err != nil {
 			c.Err = err.Error()
 			b.calls = append(b.calls, c)
 			return err
